@@ -24,10 +24,10 @@ import (
 	"testing"
 	"time"
 
+	kit "github.com/gotid/god/internal/verifkit"
 	"github.com/gotid/god/lib/discov"
 	"github.com/gotid/god/lib/discov/internal"
 	"github.com/gotid/god/lib/logx"
-	kit "github.com/gotid/god/internal/verifkit"
 	"go.etcd.io/etcd/api/v3/etcdserverpb"
 	"go.etcd.io/etcd/api/v3/mvccpb"
 	clientv3 "go.etcd.io/etcd/client/v3"
@@ -47,6 +47,7 @@ type c15Event struct {
 }
 
 type c15Watch struct {
+	pfx  string // key prefix watched, with the trailing delimiter
 	ch   chan clientv3.WatchResponse
 	next int64 // next revision to deliver
 	dead bool  // the cluster has abandoned this watcher (reload)
@@ -66,20 +67,23 @@ type c15Etcd struct {
 	rev      int64
 	log      []c15Event
 	watchers []*c15Watch
-	mid      []c15Change // applied right after the next snapshot (between Get and Watch)
+	mid      map[string][]c15Change // per prefix: applied right after its next snapshot (between Get and Watch)
+	prefixes map[string]bool        // prefixes the driver scripts
 	nGet     int
 	nWatch   int
 	// Get faults, consumed one per call: "err" = fails at once, "block" = blocks until the
 	// request context is done (like a client whose server does not answer) and returns its error
-	faults    []string
-	nHealthy  int  // Get calls that arrived after the faults had stopped
-	nExpired  int  // ... of which the caller's context was already done (answered with its error)
-	ignoreCtx bool // clean-up only: answer even if the caller's context is done
-	problems []string // protocol surprises (wrong prefix, missing option): harness trouble
+	faults      []string
+	nHealthy    int      // Get calls that arrived after the faults had stopped
+	nExpired    int      // ... of which the caller's context was already done (answered with its error)
+	ignoreCtx   bool     // clean-up only: answer even if the caller's context is done
+	alwaysBatch bool     // concurrent-reader stage: several events always travel in one response
+	problems    []string // protocol surprises (wrong prefix, missing option): harness trouble
 }
 
 func newC15Etcd() *c15Etcd {
-	return &c15Etcd{kv: map[string]string{}, modRev: map[string]int64{}, rev: 1}
+	return &c15Etcd{kv: map[string]string{}, modRev: map[string]int64{}, rev: 1, mid: map[string][]c15Change{},
+		prefixes: map[string]bool{}}
 }
 
 func (f *c15Etcd) applyLocked(c c15Change) {
@@ -101,8 +105,8 @@ func (f *c15Etcd) apply(c c15Change) {
 }
 
 func (f *c15Etcd) ActiveConnection() *grpc.ClientConn { return nil }
-func (f *c15Etcd) Close() error                        { return nil }
-func (f *c15Etcd) Ctx() context.Context                { return context.Background() }
+func (f *c15Etcd) Close() error                       { return nil }
+func (f *c15Etcd) Ctx() context.Context               { return context.Background() }
 func (f *c15Etcd) Grant(context.Context, int64) (*clientv3.LeaseGrantResponse, error) {
 	return nil, errors.New("c15: Grant not scripted")
 }
@@ -117,9 +121,9 @@ func (f *c15Etcd) Revoke(context.Context, clientv3.LeaseID) (*clientv3.LeaseRevo
 }
 
 func (f *c15Etcd) checkPrefix(what, key string, opts []clientv3.OpOption) {
-	if key != c15Prefix+"/" || !clientv3.IsOptsWithPrefix(opts) {
-		f.problems = append(f.problems, fmt.Sprintf("%s(%q, prefix=%v): the driver scripts only the prefix %q",
-			what, key, clientv3.IsOptsWithPrefix(opts), c15Prefix+"/"))
+	if !f.prefixes[key] || !clientv3.IsOptsWithPrefix(opts) {
+		f.problems = append(f.problems, fmt.Sprintf("%s(%q, prefix=%v): the driver scripts only the prefixes %v",
+			what, key, clientv3.IsOptsWithPrefix(opts), f.prefixes))
 	}
 }
 
@@ -153,7 +157,9 @@ func (f *c15Etcd) Get(ctx context.Context, key string, opts ...clientv3.OpOption
 	f.checkPrefix("Get", key, opts)
 	keys := make([]string, 0, len(f.kv))
 	for k := range f.kv {
-		keys = append(keys, k)
+		if strings.HasPrefix(k, key) {
+			keys = append(keys, k)
+		}
 	}
 	sort.Strings(keys)
 	resp := &clientv3.GetResponse{Header: &etcdserverpb.ResponseHeader{Revision: f.rev}}
@@ -161,10 +167,10 @@ func (f *c15Etcd) Get(ctx context.Context, key string, opts ...clientv3.OpOption
 		resp.Kvs = append(resp.Kvs, &mvccpb.KeyValue{Key: []byte(k), Value: []byte(f.kv[k]), ModRevision: f.modRev[k]})
 	}
 	resp.Count = int64(len(keys))
-	for _, c := range f.mid {
+	for _, c := range f.mid[key] {
 		f.applyLocked(c)
 	}
-	f.mid = nil
+	delete(f.mid, key)
 	return resp, nil
 }
 
@@ -173,7 +179,7 @@ func (f *c15Etcd) Watch(_ context.Context, key string, opts ...clientv3.OpOption
 	f.mu.Lock()
 	defer f.mu.Unlock()
 	f.checkPrefix("Watch", key, opts)
-	w := &c15Watch{ch: make(chan clientv3.WatchResponse)}
+	w := &c15Watch{pfx: key, ch: make(chan clientv3.WatchResponse)}
 	if rev := clientv3.OpGet(key, opts...).Rev(); rev != 0 {
 		w.next = rev
 	} else {
@@ -197,15 +203,15 @@ func (f *c15Etcd) watchCalls() int {
 // merely *accepted* could still be in flight when the next step starts).
 type c15Log struct{ errors atomic.Int64 }
 
-func (l *c15Log) Close() error                 { return nil }
-func (l *c15Log) Debug(any, ...logx.LogField)  {}
-func (l *c15Log) Info(any, ...logx.LogField)   {}
-func (l *c15Log) Alert(any)                    {}
-func (l *c15Log) Error(any, ...logx.LogField)  { l.errors.Add(1) }
-func (l *c15Log) Severe(any)                   {}
-func (l *c15Log) Slow(any, ...logx.LogField)   {}
-func (l *c15Log) Stack(any)                    {}
-func (l *c15Log) Stat(any, ...logx.LogField)   {}
+func (l *c15Log) Close() error                { return nil }
+func (l *c15Log) Debug(any, ...logx.LogField) {}
+func (l *c15Log) Info(any, ...logx.LogField)  {}
+func (l *c15Log) Alert(any)                   {}
+func (l *c15Log) Error(any, ...logx.LogField) { l.errors.Add(1) }
+func (l *c15Log) Severe(any)                  {}
+func (l *c15Log) Slow(any, ...logx.LogField)  {}
+func (l *c15Log) Stack(any)                   {}
+func (l *c15Log) Stat(any, ...logx.LogField)  {}
 
 var c15Logger = &c15Log{}
 
@@ -236,7 +242,7 @@ func (f *c15Etcd) pump(rng *rand.Rand) error {
 	for _, w := range live {
 		var evs []*clientv3.Event
 		for _, e := range log {
-			if e.rev < w.next {
+			if e.rev < w.next || !strings.HasPrefix(e.key, w.pfx) {
 				continue
 			}
 			ev := &clientv3.Event{Type: clientv3.EventTypePut, Kv: &mvccpb.KeyValue{Key: []byte(e.key), Value: []byte(e.val), ModRevision: e.rev}}
@@ -248,7 +254,7 @@ func (f *c15Etcd) pump(rng *rand.Rand) error {
 		}
 		w.next = last + 1
 		// one response for the whole batch, or one response per event
-		if len(evs) > 1 && rng.Intn(2) == 0 {
+		if len(evs) > 1 && !f.alwaysBatch && rng.Intn(2) == 0 {
 			for _, ev := range evs {
 				if err := c15Send(w, clientv3.WatchResponse{Events: []*clientv3.Event{ev}}); err != nil {
 					return err
@@ -280,12 +286,13 @@ func (f *c15Etcd) killWatchers() {
 }
 
 type c15Sub struct {
-	name   string
-	excl   bool
-	sub    *discov.Subscriber
-	mu     sync.Mutex
-	calls  int
-	seen   int
+	p     int // prefix index
+	name  string
+	excl  bool
+	sub   *discov.Subscriber
+	mu    sync.Mutex
+	calls int
+	seen  int
 }
 
 func (s *c15Sub) listenerCalls() int {
@@ -343,18 +350,50 @@ func runC15Case(c kit.Case) (v kit.Verdict) {
 	var order []string
 	up := true
 	var trail []string
+	// concurrent-reader stage: goroutines calling Values() in a tight loop while events arrive
+	readers := kit.EnvInt("VERIF_C15_READERS", 0)
+	etcd.alwaysBatch = readers > 0
+	stopReaders := make(chan struct{})
+	var rwg sync.WaitGroup
+	defer func() {
+		close(stopReaders)
+		rwg.Wait()
+	}()
+	valuesKey := func(kind string, s *c15Sub, op string) string {
+		if readers > 0 {
+			return "C15:stale-cache:concurrent-reader"
+		}
+		return "C15:" + kind + ":" + c15Mode(s.excl) + ":after-" + op
+	}
 
 	for i, st := range c.Steps {
 		op := kit.Str(st["op"])
-		key := c15Prefix + "/" + kit.Str(st["k"])
-		trail = append(trail, op+":"+kit.Str(st["k"])+kit.Str(st["s"])+c15Mid(st["mid"]))
+		p := kit.Num(st["p"])
+		pfx := c15Pfx(p)
+		etcd.mu.Lock()
+		etcd.prefixes[pfx+"/"] = true
+		etcd.mu.Unlock()
+		// a step concerns one prefix, or (connection events) all prefixes of the cluster at once
+		parts := []kit.M{st}
+		if sh := kit.List(st["shared"]); len(sh) > 0 {
+			parts = parts[:0]
+			for _, x := range sh {
+				parts = append(parts, x.(map[string]any))
+			}
+		}
+		key := pfx + "/" + kit.Str(st["k"])
+		tag := ""
+		if len(c15Multi(c)) > 0 {
+			tag = fmt.Sprintf("[%s]", pfx)
+		}
+		trail = append(trail, tag+op+":"+kit.Str(st["k"])+kit.Str(st["s"])+c15Mid(st["mid"]))
 		if f := c15Faults(st["faults"]); len(f) > 0 {
 			trail[len(trail)-1] += fmt.Sprintf("(Get faults %v)", f)
 		}
 		switch op {
 		case "init":
 			for _, k := range kit.List(st["keys"]) {
-				etcd.apply(c15Change{key: c15Prefix + "/" + kit.Str(k), val: c15Val(c, kit.Str(k))})
+				etcd.apply(c15Change{key: pfx + "/" + kit.Str(k), val: c15Val(c, kit.Str(k))})
 			}
 			continue
 		case "put":
@@ -366,11 +405,14 @@ func runC15Case(c kit.Case) (v kit.Verdict) {
 		case "resume":
 			up = true
 		case "reload":
-			var mid []c15Change
-			for _, m := range kit.List(st["mid"]) {
-				mm := m.(map[string]any)
-				k := kit.Str(mm["k"])
-				mid = append(mid, c15Change{del: kit.Str(mm["op"]) == "del", key: c15Prefix + "/" + k, val: c15Val(c, k)})
+			mid := map[string][]c15Change{}
+			for _, part := range parts {
+				pp := c15Pfx(kit.Num(part["p"]))
+				for _, m := range kit.List(part["mid"]) {
+					mm := m.(map[string]any)
+					k := kit.Str(mm["k"])
+					mid[pp+"/"] = append(mid[pp+"/"], c15Change{del: kit.Str(mm["op"]) == "del", key: pp + "/" + k, val: c15Val(c, k)})
+				}
 			}
 			etcd.killWatchers()
 			faults := c15Faults(st["faults"])
@@ -379,23 +421,36 @@ func runC15Case(c kit.Case) (v kit.Verdict) {
 			etcd.faults, etcd.nHealthy, etcd.nExpired = faults, 0, 0
 			etcd.mu.Unlock()
 			before := etcd.watchCalls()
+			listened := map[int]bool{}
+			for _, s := range subs {
+				listened[s.p] = true
+			}
 			internal.VerifReload(endpoints, etcd)
-			// one load+watch per listened key; the driver listens on one prefix
-			if !kit.WaitFor(c15Bound(faults), func() bool { return etcd.watchCalls() >= before+1 }) {
+			// one load+watch per listened key (prefix)
+			if !kit.WaitFor(c15Bound(faults), func() bool { return etcd.watchCalls() >= before+len(listened) }) {
 				if len(faults) > 0 {
 					if msg, stuck := etcd.stuckAfterFaults(); stuck {
 						etcd.heal()
-						kit.WaitFor(c15Timeout, func() bool { return etcd.watchCalls() >= before+1 })
+						kit.WaitFor(c15Timeout, func() bool { return etcd.watchCalls() >= before+len(listened) })
 						return fail(i, "C15:reload:never-completes", fmt.Sprintf("step %d (reload, Get faults %v, RequestTimeout %v): %s [history %v]",
 							i, faults, internal.RequestTimeout, msg, trail))
 					}
 				}
-				return infra("reload did not register a new watch\n" + kit.Stacks())
+				return infra("reload did not register a new watch per listened prefix\n" + kit.Stacks())
 			}
+			// a change scripted between snapshot and watch whose snapshot was never taken still happens
+			etcd.mu.Lock()
+			for k, cs := range etcd.mid {
+				for _, ch := range cs {
+					etcd.applyLocked(ch)
+				}
+				delete(etcd.mid, k)
+			}
+			etcd.mu.Unlock()
 			up = true
 		case "attach":
 			name := kit.Str(st["s"])
-			s := &c15Sub{name: name, excl: kit.Bool(st["excl"])}
+			s := &c15Sub{p: p, name: name, excl: kit.Bool(st["excl"])}
 			before := etcd.watchCalls()
 			var opts []discov.SubOption
 			if s.excl {
@@ -411,7 +466,7 @@ func runC15Case(c kit.Case) (v kit.Verdict) {
 			}
 			resCh := make(chan subRes, 1)
 			go func() {
-				sub, err := discov.NewSubscriber(endpoints, c15Prefix, opts...)
+				sub, err := discov.NewSubscriber(endpoints, pfx, opts...)
 				resCh <- subRes{sub, err}
 			}()
 			var sub *discov.Subscriber
@@ -441,8 +496,10 @@ func runC15Case(c kit.Case) (v kit.Verdict) {
 			allowed, _ := c15Allowed(st["exp"].(map[string]any)[name])
 			if got := c15Canon(sub.Values()); !c15In(got, allowed) {
 				kind := "first"
-				if len(subs) > 0 {
-					kind = "late"
+				for _, o := range subs {
+					if o.p == p {
+						kind = "late"
+					}
 				}
 				return fail(i, "C15:join-view:"+kind+":"+c15Mode(s.excl),
 					fmt.Sprintf("step %d: subscriber %s (%s) right after NewSubscriber shows %s, specification admits %v [history %v]",
@@ -453,8 +510,22 @@ func runC15Case(c kit.Case) (v kit.Verdict) {
 				s.calls++
 				s.mu.Unlock()
 			})
-			subs[name] = s
-			order = append(order, name)
+			subs[fmt.Sprintf("%d/%s", p, name)] = s
+			order = append(order, fmt.Sprintf("%d/%s", p, name))
+			for r := 0; r < readers; r++ {
+				rwg.Add(1)
+				go func() {
+					defer rwg.Done()
+					for {
+						select {
+						case <-stopReaders:
+							return
+						default:
+							sub.Values()
+						}
+					}
+				}()
+			}
 			if !kit.WaitFor(c15Timeout, func() bool { return etcd.watchCalls() >= before+1 }) {
 				return infra("NewSubscriber did not register a watch\n" + kit.Stacks())
 			}
@@ -473,37 +544,64 @@ func runC15Case(c kit.Case) (v kit.Verdict) {
 			return infra(strings.Join(problems, "; "))
 		}
 		v.Steps++
-		exp, _ := st["exp"].(map[string]any)
-		must, _ := st["must"].(map[string]any)
-		for _, name := range order {
-			s := subs[name]
-			allowed, _ := c15Allowed(exp[name])
-			raw := s.sub.Values()
-			got := c15Canon(raw)
-			dup := false
-			for a := range raw {
-				for b := a + 1; b < len(raw); b++ {
-					dup = dup || raw[a] == raw[b]
+		for _, part := range parts {
+			exp, _ := part["exp"].(map[string]any)
+			must, _ := part["must"].(map[string]any)
+			for _, id := range order {
+				s := subs[id]
+				if s.p != kit.Num(part["p"]) {
+					continue
 				}
+				name := s.name
+				if len(c15Multi(c)) > 0 {
+					name = c15Pfx(s.p) + ":" + s.name
+				}
+				allowed, _ := c15Allowed(exp[s.name])
+				raw := s.sub.Values()
+				got := c15Canon(raw)
+				dup := false
+				for a := range raw {
+					for b := a + 1; b < len(raw); b++ {
+						dup = dup || raw[a] == raw[b]
+					}
+				}
+				if dup {
+					return fail(i, "C15:duplicate-value:"+c15Mode(s.excl), fmt.Sprintf("step %d (%s): Values() of %s = %v lists a value twice", i, op, name, raw))
+				}
+				if !c15In(got, allowed) {
+					kind := c15Kind(raw, exp[s.name])
+					return fail(i, valuesKey(kind, s, op),
+						fmt.Sprintf("step %d (%s): Values() of %s (%s) = %s, specification admits %v [history %v]",
+							i, op, name, c15Mode(s.excl), got, allowed, trail))
+				}
+				calls := s.listenerCalls()
+				if kit.Bool(must[s.name]) && calls == s.seen {
+					return fail(i, "C15:listener-not-run:after-"+op,
+						fmt.Sprintf("step %d (%s): value list of %s changed to %s but its change listener did not run", i, op, name, got))
+				}
+				s.seen = calls
 			}
-			if dup {
-				return fail(i, "C15:duplicate-value:"+c15Mode(s.excl), fmt.Sprintf("step %d (%s): Values() of %s = %v lists a value twice", i, op, name, raw))
-			}
-			if !c15In(got, allowed) {
-				kind := c15Kind(raw, exp[name])
-				return fail(i, "C15:"+kind+":"+c15Mode(s.excl)+":after-"+op,
-					fmt.Sprintf("step %d (%s): Values() of %s (%s) = %s, specification admits %v [history %v]",
-						i, op, name, c15Mode(s.excl), got, allowed, trail))
-			}
-			calls := s.listenerCalls()
-			if kit.Bool(must[name]) && calls == s.seen {
-				return fail(i, "C15:listener-not-run:after-"+op,
-					fmt.Sprintf("step %d (%s): value list of %s changed to %s but its change listener did not run", i, op, name, got))
-			}
-			s.seen = calls
 		}
 	}
 	return v
+}
+
+// c15Pfx is the watched key of prefix number p ("svc" for single-prefix behaviours).
+func c15Pfx(p int) string {
+	if p == 0 {
+		return c15Prefix
+	}
+	return fmt.Sprintf("%s%d", c15Prefix, p)
+}
+
+// c15Multi tells whether the case uses several prefixes (only for messages).
+func c15Multi(c kit.Case) []int {
+	for _, st := range c.Steps {
+		if kit.Num(st["p"]) > 0 {
+			return []int{1}
+		}
+	}
+	return nil
 }
 
 // c15Val is the value a key carries: the case's first step may carry the table, otherwise the
@@ -655,13 +753,15 @@ func TestVerifC15(t *testing.T) {
 
 // TestVerifC15Probe measures (does not judge) two behaviours outside the generated histories;
 // checks/c15.py copies the result into the evidence notes.
-//   revalue: a key is deleted and re-created with another value while the watch is down, so
-//            the reload snapshot shows the key with a changed value.
+//
+//	revalue: a key is deleted and re-created with another value while the watch is down, so
+//	         the reload snapshot shows the key with a changed value.
 func TestVerifC15Probe(t *testing.T) {
 	logx.SetWriter(c15Logger)
 	rng := rand.New(rand.NewSource(kit.Seed()))
 	endpoints := []string{"verif-c15-probe:2379"}
 	etcd := newC15Etcd()
+	etcd.prefixes[c15Prefix+"/"] = true
 	internal.VerifSeedClient(endpoints, etcd)
 	defer internal.VerifDrop(endpoints)
 	etcd.apply(c15Change{key: c15Prefix + "/k1", val: "va"})
